@@ -89,6 +89,48 @@ fn check(t: &mut Tally, name: &str) {
             return;
         }
     }
+    // ... whatever the entry's other variables hold: values derived from the name itself (each
+    // text in front of one of its dashes as the package directory, the category, the file name
+    // stem), set before and after PKGNAME
+    if !wbase.is_empty() && !wversion.is_empty() {
+        let dashes: Vec<usize> = name.match_indices('-').map(|(i, _)| i).collect();
+        let picked: Vec<usize> = if dashes.len() <= 6 { dashes.clone() } else { dashes[..3].iter().chain(dashes[dashes.len() - 3..].iter()).copied().collect() };
+        for i in picked {
+            let dir = &name[..i];
+            if dir.is_empty() || dir.chars().any(|c| c.is_whitespace() || c.is_control()) {
+                continue;
+            }
+            for first in [true, false] {
+                t.evals += 1;
+                t.validated += 1;
+                let path = format!("cat/{}", dir);
+                let got = guard(|| {
+                    let mut s = Summary::new();
+                    if first {
+                        s.set_pkgname(name);
+                    }
+                    s.set_pkgpath(&path);
+                    s.set_prev_pkgpath(&path);
+                    s.set_categories(dir);
+                    s.set_comment(dir);
+                    s.set_file_name(&format!("{}.tgz", name));
+                    s.set_depends(&[format!("{}>=0", dir)]);
+                    s.set_provides(&[dir.to_string()]);
+                    if !first {
+                        s.set_pkgname(name);
+                    }
+                    (s.pkgbase().map(|x| x.to_string()), s.pkgversion().map(|x| x.to_string()))
+                });
+                match got {
+                    Ok((b, v)) if b.as_deref() == Some(wbase) && v.as_deref() == Some(wversion) => {}
+                    other => {
+                        t.violation(Violation::new("name", json!({"name": name, "other_fields_from": dir, "pkgname_set_first": first}), json!({"base": wbase, "version": wversion}), json!(format!("{:?}", other)), "Summary::pkgbase/pkgversion must give the same split as PkgName, whatever PKGPATH and the other variables hold"));
+                        return;
+                    }
+                }
+            }
+        }
+    }
     // the reported revision is the one version comparison uses
     let mut tie_in = false;
     if let Some((v0, r)) = tn {
@@ -96,7 +138,17 @@ fn check(t: &mut Tally, name: &str) {
         if name.contains('-') && !wbase.is_empty() && r < i64::MAX && !name.chars().any(|ch| "{}<>*?[]".contains(ch)) && !v0.starts_with('=') {
             tie_in = true;
             let mk = |op: &str, rr: i64| format!("{}{}{}nb{}", wbase, op, v0, rr);
-            let probes = [(mk(">=", r), true), (mk("<=", r), true), (mk(">", r), false), (mk("<", r + 1), true), (mk(">=", r + 1), false)];
+            let mut probes = vec![(mk(">=", r), true), (mk("<=", r), true), (mk(">", r), false), (mk("<", r + 1), true), (mk(">=", r + 1), false)];
+            // the same between two bounds of the same version: only the revision leaves room
+            let mk2 = |o1: &str, r1: i64, o2: &str, r2: i64| format!("{}{}{}nb{}{}{}nb{}", wbase, o1, v0, r1, o2, v0, r2);
+            probes.push((mk2(">=", r, "<=", r), true));
+            probes.push((mk2(">=", r, "<", r + 1), true));
+            probes.push((mk2(">", r, "<=", r + 1), false));
+            if r >= 1 {
+                probes.push((mk2(">", r - 1, "<", r + 1), true));
+                probes.push((mk2(">=", r - 1, "<=", r + 1), true));
+                probes.push((mk2(">=", r - 1, "<", r), false));
+            }
             for (pat, want) in probes {
                 t.evals += 1;
                 t.validated += 1;
